@@ -64,7 +64,7 @@ func c12(x *ctx) {
 	r := x.run
 	thorough := x.tier == "thorough"
 	r.Rule = "explicit-state search over statement sequences: a fixed prelude (array, string, hash and four union variables), then every sequence of statements from a 42-statement alphabet up to the depth bound, " +
-		"then a probe block generated from the configuration (every instance method of every literal class on a fresh literal receiver); plus every corpus program that does not reopen a configured class. " +
+		"then a probe block generated from the configuration (every instance method of every literal class on a fresh literal receiver); plus, for String, Array and Hash, a subclass whose method writes through the bare name of every inherited zero-argument method (push, <<, index assignment; thorough: concat, merge!, assignment, unshift; in a public and in a private section); plus every corpus program that does not reopen a configured class. " +
 		"State = canonical dump (in-package hook) of every TFrame entry that exists right after configuration loading; invariant: dump after analysis == dump before; " +
 		"black-box oracle: the probe block prints the same types after the program as alone. non-trivial = the program prints records"
 	r.Assumptions = []string{"the dump hook leaves out scratch fields that lookups legitimately rewrite (beforeEvaluateCode, ID, IsBeforeSpace, Round, isInfferedFromCall)",
@@ -99,6 +99,61 @@ func c12(x *ctx) {
 	}
 	rec(nil, 0)
 	nSeq := len(items)
+	// subclasses of configured classes (a subclass does not reopen its superclass): inside a method of the
+	// subclass, the bare name of every inherited method is used as the receiver of a write (push, <<, index
+	// assignment, concat, merge!, plain assignment), in a public and in a private section
+	nSub := 0
+	{
+		nameRe := regexp.MustCompile(`^[a-z_][a-z0-9_]*$`)
+		writes := []string{"%s.push(1.5)", "%s << :zq", "%s[0] = 1.5", "%s[:zk] = 1.5", "%s.concat([1.5])", "%s.merge!({zk: 1.5})", "%s = 1.5", "%s.unshift(1.5)"}
+		if !thorough {
+			writes = writes[:4]
+		}
+		for _, fn := range gen.SortedKeys(core) {
+			var c struct {
+				Frame           string `json:"frame"`
+				Class           string `json:"class"`
+				InstanceMethods []struct {
+					Name      string `json:"name"`
+					Arguments []struct {
+						IsDefault  bool `json:"is_default"`
+						IsAsterisk bool `json:"is_asterisk"`
+					} `json:"arguments"`
+				} `json:"instance_methods"`
+			}
+			if json.Unmarshal([]byte(core[fn]), &c) != nil || c.Frame != "Builtin" {
+				continue
+			}
+			if c.Class != "String" && c.Class != "Array" && c.Class != "Hash" {
+				continue
+			}
+			seen := map[string]bool{}
+			for _, m := range c.InstanceMethods {
+				required := 0
+				for _, a := range m.Arguments {
+					if !a.IsDefault && !a.IsAsterisk {
+						required++
+					}
+				}
+				if seen[m.Name] || !nameRe.MatchString(m.Name) || required > 0 {
+					continue
+				}
+				seen[m.Name] = true
+				for _, w := range writes {
+					for _, section := range []string{"", "  private\n\n"} {
+						stmt := fmt.Sprintf(w, m.Name)
+						body := "class Zqsub < " + c.Class + "\n  def zqgo\n    zqrun\n  end\n\n" + section + "  def zqrun\n    " + stmt + "\n  end\nend\nZqsub.new.zqgo\n"
+						vis := "public"
+						if section != "" {
+							vis = "private"
+						}
+						items = append(items, item{"subclass:" + c.Class + ":" + vis + ":" + stmt, body, strings.Count(body, "\n")})
+						nSub++
+					}
+				}
+			}
+		}
+	}
 	// corpus programs that do not reopen configured classes
 	configured := configuredNames(core)
 	classDef := regexp.MustCompile(`(?m)^\s*(?:class|module)\s+([A-Z][A-Za-z0-9:]*)`)
@@ -203,6 +258,8 @@ func c12(x *ctx) {
 			if k == "probe" {
 				if strings.HasPrefix(it.name, "corpus:") {
 					sig += "@" + strings.TrimPrefix(it.name, "corpus:")
+				} else if strings.HasPrefix(it.name, "subclass:") {
+					sig += "@" + it.name
 				} else {
 					sig += "@stmt:" + lastStmt(it.body)
 				}
@@ -245,7 +302,7 @@ func c12(x *ctx) {
 			}
 		}
 	}
-	r.Bounds = map[string]any{"alphabet": len(c12Alphabet), "depth": depth, "sequences": nSeq, "corpus_programs": nCorpus, "probe_lines": len(probes)}
+	r.Bounds = map[string]any{"alphabet": len(c12Alphabet), "depth": depth, "sequences": nSeq, "subclass_programs": nSub, "corpus_programs": nCorpus, "probe_lines": len(probes)}
 	r.Sample(map[string]any{"prelude": c12Prelude, "sequence": "u * 2 ; a.first", "then": "probe block (" + fmt.Sprint(len(probes)) + " lines)"})
 	r.Sample(map[string]any{"probe_lines": probes[:6]})
 	// conformance slice
